@@ -63,7 +63,10 @@ Inductive plain : Set :=
 | PNone                                        (* an `Item::None` placeholder entry (never in a parsed document) *)
 | PScalar (s : scalar)
 | PArr (aot : bool) (l : list plain)           (* aot = array of tables (elements are tables) *)
-| PTab (inl : bool) (l : list (bytes * plain)).  (* inl = inline table *)
+| PTab (il dotted : bool) (l : list (bytes * plain)).
+    (* il = inline table; dotted = the table is the proxy of a dotted key (`a.b = 1` makes `a` one).
+       The dotted bit is the one piece of syntax the content keeps: `sort_values` is documented to
+       sort "the syntactic table (everything under the [header])", i.e. dotted sub-tables too. *)
 
 Definition entries := list (bytes * plain).
 
@@ -71,8 +74,8 @@ Fixpoint abs_value (v : value) : plain :=
   match v with
   | VScalar s _ _ => PScalar s
   | VArray vals _ _ _ _ => PArr false (map abs_item vals)
-  | VInline items _ _ _ _ _ =>
-    PTab true (map (fun kv => match kv with (k, i) => (k_key k, abs_item i) end) items)
+  | VInline items _ _ dt _ _ =>
+    PTab true dt (map (fun kv => match kv with (k, i) => (k_key k, abs_item i) end) items)
   end
 with abs_item (i : item) : plain :=
   match i with
@@ -83,8 +86,8 @@ with abs_item (i : item) : plain :=
   end
 with abs_tbl (t : tbl) : plain :=
   match t with
-  | Tbl items _ _ _ _ _ =>
-    PTab false (map (fun kv => match kv with (k, i) => (k_key k, abs_item i) end) items)
+  | Tbl items _ _ dt _ _ =>
+    PTab false dt (map (fun kv => match kv with (k, i) => (k_key k, abs_item i) end) items)
   end.
 
 (* the content of a whole document *)
@@ -96,7 +99,7 @@ Fixpoint no_none (x : plain) : bool :=
   | PNone => false
   | PScalar _ => true
   | PArr _ l => forallb no_none l
-  | PTab _ l => forallb (fun kv => match kv with (_, c) => no_none c end) l
+  | PTab _ _ l => forallb (fun kv => match kv with (_, c) => no_none c end) l
   end.
 
 (* ------------------------------------------------------------------------------------ *)
@@ -147,16 +150,16 @@ Fixpoint pv_plain (v : pv) : plain :=
   | PVStr s => PScalar (SString s)
   | PVBool b => PScalar (SBool b)
   | PVArr l => PArr false (map pv_plain l)
-  | PVInl l => PTab true (e_of_list (map (fun kv => match kv with (k, x) => (k, pv_plain x) end) l))
+  | PVInl l => PTab true false (e_of_list (map (fun kv => match kv with (k, x) => (k, pv_plain x) end) l))
   end.
 Definition ipay_plain (x : ipay) : plain :=
-  match x with IPValue v => pv_plain v | IPTable => PTab false [] end.
+  match x with IPValue v => pv_plain v | IPTable => PTab false false [] end.
 
 (* -- walking a path -- *)
 Fixpoint spec_at (p : path) (f : plain -> plain) (t : plain) : plain :=
   match p with
   | [] => f t
-  | SKey k :: p' => match t with PTab inl l => PTab inl (e_upd k (spec_at p' f) l) | _ => t end
+  | SKey k :: p' => match t with PTab il d l => PTab il d (e_upd k (spec_at p' f) l) | _ => t end
   | SIdx n :: p' => match t with PArr a l => PArr a (v_upd n (spec_at p' f) l) | _ => t end
   end.
 
@@ -165,28 +168,36 @@ Fixpoint spec_at (p : path) (f : plain -> plain) (t : plain) : plain :=
    through tables; values are left alone *)
 Fixpoint spec_make_value (x : plain) : plain :=
   match x with
-  | PTab false l => PTab true (map (fun kv => match kv with (k, c) => (k, spec_make_value c) end) l)
+  | PTab false _ l => PTab true false (map (fun kv => match kv with (k, c) => (k, spec_make_value c) end) l)
   | PArr true l => PArr false (map spec_make_value l)
   | _ => x
   end.
 Definition spec_into_table (x : plain) : plain :=
-  match x with PTab true l => PTab false l | _ => x end.
-Definition is_inline_tab (x : plain) : bool := match x with PTab true _ => true | _ => false end.
+  match x with PTab true _ l => PTab false false l | _ => x end.
+Definition is_inline_tab (x : plain) : bool := match x with PTab true _ _ => true | _ => false end.
 Definition spec_into_aot (x : plain) : plain :=
   match x with
-  | PArr false (_ :: _ as l) => if forallb is_inline_tab l then PArr true (map spec_into_table l) else x
+  | PArr false l =>
+    match l with
+    | [] => x
+    | _ => if forallb is_inline_tab l then PArr true (map spec_into_table l) else x
+    end
   | _ => x
   end.
 
-(* sort: the entries of the table, and of the dotted tables below it, which the model cannot
-   tell apart from other sub-tables after `abs` — so the reference is told which keys are dotted
-   by the tree itself: see `sort_shape` in Model/Edit.v (the set of positions to sort). *)
-Inductive sshape : Set := SSort (sub : list (bytes * sshape)).
-Fixpoint spec_sort (s : sshape) (x : plain) : plain :=
-  match s, x with
-  | SSort sub, PTab inl l =>
-    PTab inl (e_sort (fold_left (fun acc ks => match ks with (k, s') => e_upd k (spec_sort s') acc end) sub l))
-  | _, _ => x
+(* sort_values: "sorts the syntactic table (everything under the [header])": the entries of the
+   table and of the dotted tables of the same kind below it; "does not affect sub-tables" *)
+Fixpoint spec_sort (x : plain) : plain :=
+  match x with
+  | PTab il d l =>
+    PTab il d (e_sort (map (fun kv => match kv with
+                                       | (k, c) =>
+                                         (k, match c with
+                                             | PTab il' true _ => if Bool.eqb il il' then spec_sort c else c
+                                             | _ => c
+                                             end)
+                                       end) l))
+  | _ => x
   end.
 
 (* doc[k1]...[kn] = x *)
@@ -195,35 +206,34 @@ Fixpoint spec_iset (ks : list bytes) (x : plain) (t : plain) : plain :=
   | [] => x
   | k :: ks' =>
     match t with
-    | PTab inl l =>
-      PTab inl (e_put k (spec_iset ks' x (match e_get k l with Some c => c | None => PNone end)) l)
-    | PNone => PTab true [(k, spec_iset ks' x PNone)]
+    | PTab il d l =>
+      PTab il d (e_put k (spec_iset ks' x (match e_get k l with Some c => c | None => PNone end)) l)
+    | PNone => PTab true false [(k, spec_iset ks' x PNone)]
     | _ => t
     end
   end.
 
 Definition on_tab (g : entries -> entries) (x : plain) : plain :=
-  match x with PTab inl l => PTab inl (g l) | _ => x end.
+  match x with PTab il d l => PTab il d (g l) | _ => x end.
 Definition on_std_tab (g : entries -> entries) (x : plain) : plain :=
-  match x with PTab false l => PTab false (g l) | _ => x end.
+  match x with PTab false d l => PTab false d (g l) | _ => x end.
 Definition on_arr (aot : bool) (g : list plain -> list plain) (x : plain) : plain :=
   match x with PArr a l => if Bool.eqb a aot then PArr a (g l) else x | _ => x end.
 
-(* the reference step.  `sh` = which sub-tables a sort reaches (dotted ones), read off the
-   document; irrelevant for every other operation. *)
-Definition spec_apply_sh (sh : sshape) (o : op) (t : plain) : plain :=
+(* the reference step *)
+Definition spec_apply (o : op) (t : plain) : plain :=
   match o with
   | OInsert p k v => spec_at p (on_tab (e_put k (pv_plain v))) t
-  | OInsertTable p k => spec_at p (on_std_tab (e_put k (PTab false []))) t
-  | OInsertAot p k => spec_at p (on_std_tab (e_put k (PArr true [PTab false []]))) t
+  | OInsertTable p k => spec_at p (on_std_tab (e_put k (PTab false false []))) t
+  | OInsertAot p k => spec_at p (on_std_tab (e_put k (PArr true [PTab false false []]))) t
   | ORemove p k => spec_at p (on_tab (e_del k)) t
   | OArrPush p v => spec_at p (on_arr false (fun l => l ++ [pv_plain v])) t
   | OArrInsert p i v => spec_at p (on_arr false (v_ins i (pv_plain v))) t
   | OArrReplace p i v => spec_at p (on_arr false (v_upd i (fun _ => pv_plain v))) t
   | OArrRemove p i => spec_at p (on_arr false (v_del i)) t
-  | OAotPush p => spec_at p (on_arr true (fun l => l ++ [PTab false []])) t
+  | OAotPush p => spec_at p (on_arr true (fun l => l ++ [PTab false false []])) t
   | OAotRemove p i => spec_at p (on_arr true (v_del i)) t
-  | OSort p => spec_at p (spec_sort sh) t
+  | OSort p => spec_at p spec_sort t
   | OFmt p => t
   | OMakeValue p k => spec_at p (on_std_tab (e_upd k spec_make_value)) t
   | OIntoTable p k => spec_at p (on_std_tab (e_upd k spec_into_table)) t
